@@ -115,6 +115,7 @@ func (w *World) SeedStandard() *Std {
 		_ = app.StakingKeeper // staking params come from genesis (bond denom uelys)
 		app.ParameterKeeper.SetParams(ctx, ptypes.DefaultGenesis().Params)
 		app.MasterchefKeeper.SetParams(ctx, mctypes.DefaultGenesis().Params)
+		w.Names[mctypes.DefaultGenesis().Params.ProtocolRevenueAddress] = "protocolRevenue"
 		app.StablestakeKeeper.SetParams(ctx, sstypes.DefaultGenesis().Params)
 		lpp := lptypes.DefaultGenesis().Params
 		_ = app.LeveragelpKeeper.SetParams(ctx, &lpp)
